@@ -4,9 +4,11 @@ import (
 	"bytes"
 	"context"
 	"encoding/json"
+	"math"
 	"math/rand"
 	"net/http"
 	"net/http/httptest"
+	"runtime"
 	"sync"
 
 	connect "github.com/bufbuild/connect-go"
@@ -25,6 +27,7 @@ type frameSc struct {
 	Body    string `json:"body"`
 	ID      int    `json:"id"`
 	Corrupt bool   `json:"corrupt"`
+	Lie     bool   `json:"lie,omitempty"` // the prefix declares Len bytes, only a few are really there
 }
 
 type framesScenario struct {
@@ -43,6 +46,8 @@ type framesScenario struct {
 	Script   []int     `json:"script"`
 	EofWith  bool      `json:"eofwith"`
 	Concrete bool      `json:"concrete"` // lens and cut are already concrete (replay)
+	Bomb     bool      `json:"bomb"`     // measure what the call allocates
+	MaxLimit bool      `json:"maxlimit"` // configure the largest possible read limit
 }
 
 func init() { families["frames"] = runFrames }
@@ -78,6 +83,20 @@ func concretiseFrames(s *framesScenario, rng *rand.Rand, table *Table) [][]byte 
 		f := &s.Frames[i]
 		compressed := f.Flag&1 == 1
 		var inner []byte
+		if f.Lie {
+			out[i] = []byte{0x0A, 0x06, 1, 2, 3, 4, 5, 6}
+			continue
+		}
+		if f.Body == "msg" && f.Ilen >= 1<<20 {
+			// a "bomb": megabytes of zeros that compress to a few kilobytes
+			v := make([]byte, f.Ilen-8)
+			v[0] = byte(f.ID)
+			table.Put(f.ID, v)
+			inner := marshalBV(v)
+			out[i] = refcodec.GzipBest(inner)
+			f.Ilen, f.Len = len(inner), len(out[i])
+			continue
+		}
 		switch f.Body {
 		case "msg":
 			want := f.Len
@@ -92,9 +111,17 @@ func concretiseFrames(s *framesScenario, rng *rand.Rand, table *Table) [][]byte 
 				want++
 				vlen = valueForEncodedLen(want)
 			}
-			v := payloadFor(f.ID, vlen, rng)
-			table.Put(f.ID, v)
-			inner = marshalBV(v)
+			if want >= 8 && valueForEncodedLen(want-3) > 0 {
+				// the same field twice (the last one wins): a payload cut after the first occurrence still
+				// parses, to a decoy value that projects to "corrupt"
+				v := payloadFor(f.ID, valueForEncodedLen(want-3), rng)
+				table.Put(f.ID, v)
+				inner = append([]byte{0x0A, 0x01, 0xEE}, marshalBV(v)...)
+			} else {
+				v := payloadFor(f.ID, vlen, rng)
+				table.Put(f.ID, v)
+				inner = marshalBV(v)
+			}
 		case "zero":
 			inner = nil
 		case "bad":
@@ -171,6 +198,8 @@ func runFrames(raw json.RawMessage, seed int64, rec *Rec) {
 		concLens[i] = f.Len
 		if s.Raw {
 			wire = append(wire, payloads[i]...)
+		} else if f.Lie {
+			wire = append(wire, refcodec.EnvelopeDeclared(byte(f.Flag), uint32(f.Len), payloads[i])...)
 		} else {
 			wire = append(wire, refcodec.Envelope(byte(f.Flag), payloads[i])...)
 		}
@@ -182,8 +211,26 @@ func runFrames(raw json.RawMessage, seed int64, rec *Rec) {
 	if s.Cut < len(wire) {
 		avail = wire[:s.Cut]
 	}
+	limit := s.Limit
+	if s.MaxLimit {
+		limit = math.MaxInt
+	}
+	var ms0 runtime.MemStats
+	if s.Bomb {
+		runtime.GC()
+		runtime.ReadMemStats(&ms0)
+	}
+	allocKB := func() int64 {
+		if !s.Bomb {
+			return 0
+		}
+		var ms1 runtime.MemStats
+		runtime.ReadMemStats(&ms1)
+		return int64(ms1.TotalAlloc-ms0.TotalAlloc) / 1024
+	}
 	// the reset event carries the concrete scenario
 	sc := map[string]any{
+		"bomb": s.Bomb, "maxlimit": s.MaxLimit,
 		"proto": s.Proto, "side": s.Side, "shape": s.Shape, "raw": s.Raw, "reuse": s.Reuse, "limit": s.Limit,
 		"enc": s.Enc, "frames": s.Frames, "cut": s.Cut, "tail": s.Tail, "trailers": s.Trailers,
 	}
@@ -226,8 +273,8 @@ func runFrames(raw json.RawMessage, seed int64, rec *Rec) {
 				Trailer: trailer, Body: body, Request: req}, nil
 		}
 		opts := clientProtoOpts(s.Proto)
-		if s.Limit > 0 {
-			opts = append(opts, connect.WithReadMaxBytes(s.Limit))
+		if limit > 0 {
+			opts = append(opts, connect.WithReadMaxBytes(limit))
 		}
 		client := connect.NewClient[BV, BV](fake, "http://verif.test/verif.v1.Svc/Method", opts...)
 		out := []int{}
@@ -236,7 +283,7 @@ func runFrames(raw json.RawMessage, seed int64, rec *Rec) {
 			if err == nil {
 				out = append(out, table.ID(res.Msg.Value))
 			}
-			rec.Add(E("done", "ok", err == nil, "code", codeOf(err), "out", out))
+			rec.Add(E("done", "ok", err == nil, "code", codeOf(err), "out", out, "alloc_kb", allocKB()))
 		} else {
 			stream, err := client.CallServerStream(bg(), connect.NewRequest(&BV{Value: []byte{1}}))
 			if err != nil {
@@ -249,7 +296,7 @@ func runFrames(raw json.RawMessage, seed int64, rec *Rec) {
 				rec.Add(E("recv", "id", id))
 			}
 			err = stream.Err()
-			rec.Add(E("done", "ok", err == nil, "code", codeOf(err), "out", out))
+			rec.Add(E("done", "ok", err == nil, "code", codeOf(err), "out", out, "alloc_kb", allocKB()))
 			_ = stream.Close()
 		}
 		fake.wg.Wait()
@@ -259,7 +306,7 @@ func runFrames(raw json.RawMessage, seed int64, rec *Rec) {
 	// handler side: handlers are shared between scenarios (as in a real server); the per-scenario
 	// observation state travels in the request context
 	st := &framesHandlerState{rec: rec, table: table, out: []int{}}
-	h := framesHandler(unary, s.Limit)
+	h := framesHandler(unary, limit)
 	req := httptest.NewRequest(http.MethodPost, "http://verif.test/verif.v1.Svc/Method", body)
 	req.ProtoMajor, req.ProtoMinor = 2, 0
 	req.Header.Set("Content-Type", ct)
@@ -275,11 +322,11 @@ func runFrames(raw json.RawMessage, seed int64, rec *Rec) {
 		if !ok {
 			code = responseCode(s.Proto, s.Raw, ct, rw)
 		}
-		rec.Add(E("done", "ok", ok, "code", code, "out", out, "ran", ran))
+		rec.Add(E("done", "ok", ok, "code", code, "out", out, "ran", ran, "alloc_kb", allocKB()))
 		return
 	}
 	rec.Add(E("done", "ok", seen == nil && ran == 1, "code", codeOf(seen), "out", out, "ran", ran,
-		"resp", responseCode(s.Proto, s.Raw, ct, rw)))
+		"resp", responseCode(s.Proto, s.Raw, ct, rw), "alloc_kb", allocKB()))
 }
 
 // responseCode decodes the recorded response with the reference codec: 0 success, else the error code;
